@@ -73,6 +73,7 @@ type run struct {
 	nfired  int  // storage faults applied
 	negLen  bool
 	huge    bool // the walker met a list with more than 65536 elements
+	concurrent bool // readers run as scheduled tasks
 }
 
 // exact returns a copy of b whose capacity equals its length, so that any
@@ -569,11 +570,21 @@ func (r *run) consumers(msg *capnp.Message, pristine *capnp.Message) {
 		s.Probe("consumers_skipped_huge_list")
 		return
 	}
-	// a fresh budget for the consumer (the walker may have used the message's up)
-	if msg.TraverseLimit != 0 {
+	// a fresh budget for the consumer (the walker may have used the message's up), never more than
+	// 256 KiB: under a larger limit a hostile list of millions of zero-sized elements that the walker
+	// did not happen to reach is legitimately traversed for minutes (seen in the thorough tier)
+	// (and 256 KiB keeps a consumer that dereferences one small object per list element - one
+	// schedule point each - inside the step budget of a simulated run)
+	cap := uint64(256 << 10)
+	if r.concurrent {
+		// pogs and the text encoder read the schema for every list element, about a hundred
+		// schedule points each: 32 KiB of message keeps such a run inside its step budget
+		cap = 32 << 10
+	}
+	if msg.TraverseLimit != 0 && msg.TraverseLimit < cap {
 		msg.ResetReadLimit(msg.TraverseLimit)
 	} else {
-		msg.ResetReadLimit(64 << 20)
+		msg.ResetReadLimit(cap)
 	}
 	root, err := msg.Root()
 	if err != nil {
@@ -770,7 +781,8 @@ func (Engine) Run(t *testing.T, tape *simrt.Tape, opt worker.Options) *worker.Ou
 		k := 1 + tape.Choice("readers", 3)
 		concurrent := k > 1 && tape.Choice("concurrent", 3) == 0
 		if concurrent {
-			res = simrt.Run(t, simrt.Config{Tape: tape, MaxSteps: 200000, Trace: opt.Trace}, func(s *simrt.Sched) {
+			r.concurrent = true
+			res = simrt.Run(t, simrt.Config{Tape: tape, MaxSteps: 1000000, Trace: opt.Trace}, func(s *simrt.Sched) {
 				r.s = s
 				r.c01(true, k)
 			}, nil)
